@@ -194,10 +194,14 @@ def replay_frame(arg):
     n = 2 + f["lenDelta"]
     lst = [10.0, 20.0, 30.0][:n]
     kw = {}
-    if f["kind"] in ("xy", "both"):
+    if f["kind"] in ("xy", "both", "xy+dmax"):
         kw.update(max_x_position_list=lst, max_y_position_list=lst)
-    if f["kind"] in ("ring", "both"):
+    if f["kind"] in ("ring", "both", "ring+x"):
         kw.update(max_distance_list=lst, min_distance_list=[1.0, 2.0, 3.0][:n])
+    if f["kind"] in ("xy+dmax", "dmax-only"):
+        kw.update(max_distance_list=lst)
+    if f["kind"] in ("ring+x", "x-only"):
+        kw.update(max_x_position_list=lst)
     rep = {"abstract": f, "kwargs": kw, "spec": list(out)}
     mism = []
     try:
@@ -206,7 +210,7 @@ def replay_frame(arg):
     except Exception as ex:
         acc = False
     if acc != out[0]:
-        mism.append(("critical-config-%s%s" % ("accepted" if acc else "rejected", ":both-range-kinds" if f["kind"] == "both" and acc else ""),
+        mism.append(("critical-config-%s%s" % ("accepted" if acc else "rejected", ":both-range-kinds" if f["kind"] in ("both", "xy+dmax", "ring+x") and acc else ""),
                      "CriticalObjectFilterConfig(%s) %s" % (kw, "accepted" if acc else "rejected"), rep))
     try:
         PerceptionPassFailConfig(ec, ["car", "pedestrian"], lst)
